@@ -68,4 +68,16 @@ CHECKS = {
        "exhausted iterator; TLC (TraceIter) accepts the log only if every answer is the one the abstract iterator of IterSpec gives.",
   note="Trusted: TLC and the harness's call logging; hash-collection iterators are compared as multisets; element type int.",
   technique="TLC model checking of Duplicate and look-ahead machines; TLC trace validation of call patterns on every real iterator producer"),
+ "C16": dict(
+  text="EvalSpec.tla models the trampoline of lazy/lazy.go with closures as data; TLC checks for all 2 468 programs of its "
+       "space (Done/Call/TailCall/Map/FlatMap/Map2, nested) that Run yields the strict value, terminates, re-association keeps "
+       "continuation nesting <= 3 on tail chains, and a memoised thunk never runs twice even when Get restarts. The "
+       "model-checked programs are exported and run on the real lazy package, together with seeded random programs, tail "
+       "chains of depth 10..10^6 (thorough 2*10^7) whose thunks sample the Go stack depth, repeated Get, and concurrent "
+       "getters held at a gate inside the thunk (lazy.Call, TailCall, Func1, lazy.Memoize, fp.Memoize, list cells); TLC "
+       "(TraceEval) accepts the log only if results equal EvalSpec!Strict, no program thunk runs twice, stack depth is "
+       "independent of the recursion depth and every concurrent scenario shows one execution and one value.",
+  note="Stack depth is measured (runtime.Callers, sampled), not modelled; deep chains run in their own process and stack "
+       "exhaustion there is reported as the violation it is. Concurrency verdicts use only timing-independent facts.",
+  technique="TLC model checking of the trampoline; replay of the TLC-exported program space + TLC trace validation on the real lazy package"),
 }
